@@ -19,7 +19,7 @@ def verify(d):
     pkgdir = pkg.strip("./") 
     wt = tempfile.mkdtemp(prefix="seedverify-")
     os.rmdir(wt)
-    res = {"dir": d, "run": "go test -vet=off -count=1 -run %s %s" % (runre, pkg)}
+    res = {"dir": d, "run": "go test -vet=off -count=1 -run '%s' %s" % (runre, pkg)}
     try:
         rc, out = run("git -C /repo worktree add -q --detach %s %s" % (wt, os.environ.get("SEED_BASE", "HEAD")), "/")
         if rc: return {"ok": False, "why": "worktree: " + out}
